@@ -227,6 +227,16 @@ def rewrite_misc(text, rules):
     for _ in range(k):
         rules.hit('R6', 'unreachable!() -> unreached()')
     text = new
+    # R6: `panic!(..)` (a documented panic) -> `vstd::pervasive::unreached::<()>()`: the obligation that the call is never
+    # reached under the function's precondition (the documented "# Panics" condition becomes a `requires`)
+    while True:
+        code = blank_noncode(text)
+        m = re.search(r'\bpanic\s*!\s*\(', code)
+        if not m:
+            break
+        close = match_close(code, m.end() - 1)
+        rules.hit('R6', 'panic!(..) -> unreached()')
+        text = text[:m.start()] + 'vstd::pervasive::unreached::<()>()' + text[close + 1:]
     # R6: debug_assert!(..) is dropped (listed): it is compiled out of release builds and its
     # argument expressions often use constructs outside the verified subset
     while True:
@@ -502,6 +512,7 @@ class FnWeave:
         self.novacuity = False
         self.opaque = False
         self.r5slice = False
+        self.r8b = False
 
 
 def weave_fn(text, w, rules, vacuity=False, name='?'):
@@ -773,6 +784,10 @@ def build_unit(unit_path, vacuity=False):
                         w.novacuity = True
                     elif d2 == 'r5 slice':
                         w.r5slice = True
+                    elif d2 == 'r8 consts':
+                        # R8b: `X::TYPE` -> the free const `X_TYPE` that rule R8 hoisted out of `impl AttributeStaticType for X`
+                        # (same value by construction; Verus does not support associated constants in patterns)
+                        w.r8b = True
                     elif d2 == 'body-opaque':
                         # the function is trusted (external_body): its body is not needed and may call helpers that are not extracted
                         w.opaque = True
@@ -805,6 +820,13 @@ def build_unit(unit_path, vacuity=False):
             finally:
                 R5_SLICE[0] = False
             fname = ' :: '.join(path)
+            if w.r8b:
+                def _r8b(mm):
+                    if mm.group(1) == 'Self':
+                        return mm.group(0)
+                    rules.hit('R8', 'X::TYPE -> X_TYPE')
+                    return mm.group(1).upper() + '_TYPE'
+                txt = re.sub(r'\b([A-Z][A-Za-z0-9]*)::TYPE\b', _r8b, txt)
             woven = weave_fn(txt, w, rules, vacuity=False, name=fname)
             a, b = emit('// ---- extracted fn: %s :: %s\n' % (f, fname) + woven)
             in_trait_impl = any(re.match(r'impl\b.*\bfor\b', seg) for seg in path[:-1])
